@@ -177,6 +177,10 @@ func (t *tx) read(in *instance, o gate2.Op) (string, error) {
 		return r.cell, nil
 	case "map":
 		return r.idx[idxKey(o)], nil
+	case "counter":
+		return r.cell, nil
+	case "log":
+		return strings.Join(r.list, ","), nil
 	case "in":
 		if len(r.in) == 0 {
 			return "", errors.New("reference: read from an empty input")
@@ -188,10 +192,23 @@ func (t *tx) read(in *instance, o gate2.Op) (string, error) {
 	return "", errors.New("reference: read from a write-only resource")
 }
 
-func (t *tx) write(in *instance, o gate2.Op, v string) {
+func (t *tx) write(in *instance, o gate2.Op, v string) error {
 	r := t.m[in.name]
 	t.wrote[in.name] = true
 	switch in.cat {
+	case "counter":
+		var n int
+		fmt.Sscan(r.cell, &n)
+		r.cell = fmt.Sprint(n + counterAmount(o))
+	case "log":
+		if o.V == "pop" {
+			if len(r.list) == 0 {
+				return errors.New("reference: pop from an empty log")
+			}
+			r.list = r.list[:len(r.list)-1]
+		} else {
+			r.list = append(r.list, o.V)
+		}
 	case "cell":
 		r.cell = v
 	case "map":
@@ -199,6 +216,23 @@ func (t *tx) write(in *instance, o gate2.Op, v string) {
 	case "out":
 		t.pend[in.name] = append(t.pend[in.name], v)
 	}
+	return nil
+}
+
+// renderVal renders a value the body read in the reference's format for the instance's category.
+func renderVal(in *instance, v tla.Value) string {
+	switch in.cat {
+	case "log":
+		return strings.Join(tupleStrings(v), ",")
+	case "counter":
+		s := "?"
+		func() {
+			defer func() { recover() }()
+			s = fmt.Sprint(v.StripVClock().AsNumber())
+		}()
+		return s
+	}
+	return strOf(v)
 }
 
 func (t *tx) commit() map[string]*mres {
@@ -254,7 +288,7 @@ func runCase(cs caseSpec, env *wenv, st *runStats) (outcome string, fail *failur
 	for _, in := range insts {
 		var ops []gate2.Op
 		switch in.cat {
-		case "cell":
+		case "cell", "log", "counter":
 			ops = []gate2.Op{opR(in.name)}
 		case "map":
 			keys := make([]string, 0, 2)
@@ -290,7 +324,7 @@ func runCase(cs caseSpec, env *wenv, st *runStats) (outcome string, fail *failur
 	for s := range secs {
 		ops := append([]gate2.Op{}, secs[s].Ops...)
 		for i := range ops {
-			if ops[i].K == "w" {
+			if ops[i].K == "w" && ops[i].V == "" {
 				ops[i].V = fmt.Sprintf("t%d%d", s, i)
 			}
 		}
@@ -305,6 +339,12 @@ func runCase(cs caseSpec, env *wenv, st *runStats) (outcome string, fail *failur
 		}
 	}
 	script := &gate2.Script{Prog: gate2.Program{Arch: "A", Vars: vars, Sections: secs}}
+	script.ValueOf = func(o gate2.Op) (tla.Value, bool) {
+		if in := byName[o.R]; in != nil && in.valueOf != nil {
+			return in.valueOf(o)
+		}
+		return tla.Value{}, false
+	}
 
 	// arm the fault: it hits the first attempt of section Fault.Sec; counters of the fault-free prefix are static
 	f := cs.Fault
@@ -357,12 +397,18 @@ func runCase(cs caseSpec, env *wenv, st *runStats) (outcome string, fail *failur
 
 	checkState := func(when, sub string, kindOfFault string) *failure {
 		for _, in := range insts {
-			got, err := in.observe(g)
+			want := model[in.name].render(in.cat)
+			var got string
+			var err error
+			if in.observeWant != nil {
+				got, err = in.observeWant(g, want)
+			} else {
+				got, err = in.observe(g)
+			}
 			if err == errNoHook {
 				st.noHook = true
 				continue
 			}
-			want := model[in.name].render(in.cat)
 			if err == errLockHeld {
 				return &failure{in.kind + "/" + kindOfFault + "/lock-held-" + sub, fmt.Sprintf("%s: %s (%s): %v  | %s", when, in.name, in.kind, err, cs)}
 			}
@@ -432,15 +478,15 @@ func runCase(cs caseSpec, env *wenv, st *runStats) (outcome string, fail *failur
 					if err != nil {
 						return "", nil, err.Error()
 					}
-					if got := strOf(o.Val); got != want {
+					if got := renderVal(in, o.Val); got != want {
 						sub := "read"
 						if try > 0 {
 							sub = "retry-read"
 						}
 						return "", &failure{in.kind + "/" + fk + "/" + sub, fmt.Sprintf("s%d attempt %d op %d (%s) read %s, the transactional reference gives %s  | %s", s, try, o.Op, op, got, want, cs)}, ""
 					}
-				} else {
-					t.write(in, op, strOf(o.Val))
+				} else if err := t.write(in, op, strOf(o.Val)); err != nil {
+					return "", nil, err.Error()
 				}
 			}
 			if planned2 {
@@ -557,7 +603,7 @@ func protoOf(kind, name string) *instance {
 		return p
 	}
 	dir, _ := os.MkdirTemp(os.Getenv("VERIF_SCRATCH"), "proto")
-	env := &wenv{w: 999, scratch: dir, gobs: gobCache{}}
+	env := &wenv{w: 999, scratch: dir, gobs: gobCache{}, portBase: 33000}
 	in := build(kind, name, env)
 	if in.fin != nil {
 		in.fin()
@@ -603,7 +649,7 @@ func TestCheck(t *testing.T) {
 		setup := func(w int) any {
 			d := filepath.Join(scratch, fmt.Sprintf("w%d", w))
 			os.MkdirAll(d, 0o755)
-			return &wenv{w: w, scratch: d, gobs: gobCache{}}
+			return &wenv{w: w, scratch: d, gobs: gobCache{}, portBase: 28000 + w*300}
 		}
 		var statsMu sync.Mutex
 		total := runStats{}
@@ -613,7 +659,20 @@ func TestCheck(t *testing.T) {
 				we := c.User.(*wenv)
 				cs := chooseCase(c, b, cfgs, we)
 				var st runStats
-				out, fl, disc := runCase(cs, we, &st)
+				var out, disc string
+				var fl *failure
+				func() {
+					defer func() {
+						if x := recover(); x != nil {
+							if ep, ok := x.(envProblem); ok {
+								disc = "env: " + ep.what
+								return
+							}
+							panic(x)
+						}
+					}()
+					out, fl, disc = runCase(cs, we, &st)
+				}()
 				statsMu.Lock()
 				total.timingAbort += st.timingAbort
 				total.noHook = total.noHook || st.noHook
